@@ -969,11 +969,12 @@ def assign_histories(col):
                 m, r = got
                 rb = r.SerializeToString(deterministic=True)
                 b = guard(col, "encode", how, lambda: bytes(m))
+                vclass = "default-value" if value in (0, "", False) else "non-default-value"
                 if b is not None and b != rb:
-                    col.fail("assignment-inside-does-not-create-presence-like-the-reference:%d-level" % len(path), how, f"ours {b.hex()} reference {rb.hex()}")
+                    col.fail("assignment-inside-does-not-create-presence-like-the-reference:%d-level:%s" % (len(path), vclass), how, f"ours {b.hex()} reference {rb.hex()}")
                 top = getattr(m, path[0])
                 if not betterproto.serialized_on_wire(top):
-                    col.fail("assigned-inside-but-not-present:%d-level" % len(path), how, f"serialized_on_wire(m.{path[0]}) is False")
+                    col.fail("assigned-inside-but-not-present:%d-level:%s" % (len(path), vclass), how, f"serialized_on_wire(m.{path[0]}) is False")
 
 
 def declaration_styles(col):
@@ -1834,7 +1835,8 @@ def twins_both_orders(col, prop):
     # the other order of first use needs a fresh interpreter (class-level and module-level tables are per process)
     import subprocess
     env = dict(os.environ, DEEP_TWIN_ORDER="BA", PYTHONPATH=os.path.dirname(os.path.dirname(os.path.abspath(__file__))))
-    p = subprocess.run([sys.executable, "-m", "standin.deep", prop, "--twins-only"], env=env, capture_output=True, text=True, timeout=600)
+    from pyvc import proc as _proc
+    p = _proc.run([sys.executable, "-m", "standin.deep", prop, "--twins-only"], env=env, timeout=600)
     try:
         r = json.loads(p.stdout)
     except Exception:
